@@ -30,7 +30,8 @@ def T(text, cls='fixed'):
 CURRENCY_ALIASES = ['avro', 'dollar', 'euro', 'kroner', 'lef', 'leva', 'tl', 'лв']       # configured alias words (config.json currency_alias)
 # names with letters whose lower-casing changes the byte length (İ), written in capitals so that every re-casing is the same name
 VAR_NAMES = ['zq', 'wv rate', 'mk total', 'İZMİR', 'BİTİŞ', 'ÖĞLE ARASI', 'ÇAY', 'İŞ GÜNÜ',
-             'total sum', 'times visited', 'add on', 'toplam fiyat', 'minus side']          # ... and names with a word that is also a written operator
+             'total sum', 'times visited', 'add on', 'toplam fiyat', 'minus side',
+             'ΦΟΡΟΣ', 'ΜΙΣΘΟΣ ΜΗΝΑ', 'ΚΟΣΤΟΣ']          # ... and Greek words ending in sigma (two lower-case forms)          # ... and names with a word that is also a written operator
 # rules an application added with patterns whose literal words carry capitals: their connective words in every letter case
 APP_RULES = [('{NUMBER:part} OUT OF {NUMBER:total}', ['out', 'of']), ('{NUMBER:part} Per {NUMBER:total}', ['per']), ('{NUMBER:part} vErSuS {NUMBER:total}', ['versus']),
              ('{NUMBER:part} ÜZERİNDEN {NUMBER:total}', ['ÜZERİNDEN'])]
@@ -144,6 +145,8 @@ def gen_base(rng, today_year):
 
 def recase_word(rng, w):
     k = rng.randrange(4)
+    if 'Σ' in w.upper():
+        k = rng.randrange(3)          # letter-by-letter re-casing would write a non-final sigma at the end of a word: not the other case of that word
     if k == 0:
         return w.lower()
     if k == 1:
@@ -155,7 +158,8 @@ def recase_word(rng, w):
 
 def comment_text(rng):
     lm, sm = lex.months('en')
-    pool = sorted(lm) + ['12', '5 + 3', 'usd', 'to', 'march 2020', '10 usd to try', '15% of 200', '= 7', 'EST', 'x = 1', '2 hours', '#', 'çay', '', '0x10', '5 march 2020']
+    pool = sorted(lm) + ['12', '5 + 3', 'usd', 'to', 'march 2020', '10 usd to try', '15% of 200', '= 7', 'EST', 'x = 1', '2 hours', '#', 'çay', '', '0x10', '5 march 2020',
+                                 '[NUMBER:7]', 'VAT is [PERCENT:18] here', 'pattern: {NUMBER:value} {TEXT:type:km}', '[MONEY:5;usd] per item', '{NUMBER:n}', '[VAT:20]']
     return '#' + rng.choice(['', ' ']) + rng.choice(pool)
 
 
